@@ -329,6 +329,20 @@ def r8(ctx):
     ctx.floor("C17.R8", 3)
 
 
+def r9(ctx):
+    """what "registered" means upstream: the engine registers a peer exactly once per successful session with it, never for a
+    failed or declined one (= C10.R12)"""
+    from . import livefw
+    livefw.check_sync_finished(ctx, "C17.R9", "useful-peer")
+    ctx.floor("C17.R9", 24)
+
+def r10(ctx):
+    """a removal that is refused (the document is open) leaves the useful-peer list alone (= C16.R13)"""
+    from . import C16
+    C16.refused_removal_changes_nothing(ctx, "C17.R10")
+    ctx.floor("C17.R10", 1)
+
+
 def run(ctx):
     ctx.run_rule("C17.R1", r1)
     ctx.run_rule("C17.R2", r2)
@@ -338,3 +352,5 @@ def run(ctx):
     ctx.run_rule("C17.R6", r6)
     ctx.run_rule("C17.R7", r7)
     ctx.run_rule("C17.R8", r8)
+    ctx.run_rule("C17.R9", r9)
+    ctx.run_rule("C17.R10", r10)
